@@ -325,11 +325,36 @@ impl Request {
             }
 
             iteration_number += 1;
-            let boxed_read = Request::cursor_read(cursor, iteration_number, request, content_length);
-            if boxed_read.is_err() {
-                let reason = boxed_read.err().unwrap().to_string();
-                eprintln!("unable to read request: {}", reason);
+
+            // the remaining header lines are read in a loop (it used to be one recursive call
+            // per line, a request with a few thousand header lines overflowed the stack);
+            // the header block ends at the first blank line, at the end of input,
+            // or at a line that is not valid UTF-8
+            loop {
+                let mut buf = vec![];
+                let _ = cursor.read_until(b'\n', &mut buf).unwrap();
+                let boxed_line = String::from_utf8(buf);
+                if boxed_line.is_err() {
+                    let reason = boxed_line.err().unwrap().to_string();
+                    eprintln!("unable to read request: {}", reason);
+                    break;
+                }
+                let line = boxed_line.unwrap();
+                if line.trim().len() == 0 {
+                    break;
+                }
+
+                let header = Request::parse_http_request_header_string(&line);
+                if header.name == Header::_CONTENT_LENGTH {
+                    let boxed_content_length = header.value.parse::<usize>();
+                    if boxed_content_length.is_ok() {
+                        content_length = boxed_content_length.unwrap();
+                    }
+                }
+                request.headers.push(header);
+                iteration_number += 1;
             }
+            let _ = (iteration_number, content_length);
         }
 
         // remaining part is request body
